@@ -138,6 +138,16 @@ func (fi *FuncInfo) ensureFacts() {
 			if first {
 				continue // no processed predecessor yet
 			}
+			// short-circuit "a || b": a block with two predecessors, each
+			// arriving over a conditional edge, knows the disjunction.
+			if len(b.Preds) == 2 && b.Preds[0] != b.Preds[1] {
+				e0 := fi.edgeFacts[[2]int{b.Preds[0].Index, b.Index}]
+				e1 := fi.edgeFacts[[2]int{b.Preds[1].Index, b.Index}]
+				if len(e0) > 0 && len(e1) > 0 && !top[b.Preds[0]] && !top[b.Preds[1]] {
+					of := orFact(e0[0], e1[0])
+					acc[of.Key()] = of
+				}
+			}
 			if top[b] || len(acc) != len(fi.factsIn[b]) {
 				top[b] = false
 				fi.factsIn[b] = acc
@@ -531,3 +541,32 @@ func (fi *FuncInfo) extractTerm(call *ssa.Call, i int) *Term {
 	}
 	return mk(KExt, itoa(i), nil, nil, fi.Term(call))
 }
+
+// KOr is the kind of a disjunction of two facts (operands are sorted).
+const KOr = "or"
+
+func factTerm(f Fact) *Term {
+	if f.Neg {
+		return &Term{K: KUn, S: "!", A: []*Term{f.T}}
+	}
+	return f.T
+}
+
+func orFact(a, b Fact) Fact {
+	x, y := factTerm(a), factTerm(b)
+	if x.Key() > y.Key() {
+		x, y = y, x
+	}
+	return Fact{T: &Term{K: KOr, A: []*Term{x, y}}}
+}
+
+// OrKey returns the key of the disjunction fact of two fact keys given as terms.
+func OrKey(x, y *Term) string {
+	if x.Key() > y.Key() {
+		x, y = y, x
+	}
+	return (&Term{K: KOr, A: []*Term{x, y}}).Key()
+}
+
+// NotTerm wraps a term in a negation (for use with OrKey).
+func NotTerm(t *Term) *Term { return &Term{K: KUn, S: "!", A: []*Term{t}} }
